@@ -66,6 +66,7 @@ stmt:
                     Position: yylex.(*Parser).builder.NewTokensPosition($1, $3),
                     OpenTkn: $1,
                     Items: $2.(*ParserSeparatedList).Items,
+                    SeparatorTkns: []*token.Token{},
                     CloseTkn: $1,
                 }
             }
